@@ -358,6 +358,22 @@ impl MemoryStore {
     }
 }
 
+/// Verification hooks: read accessors for the private maps.
+#[cfg(feature = "verif")]
+impl MemoryStore {
+    pub fn verif_records(&self) -> &HashMap<Key, Record> {
+        &self.records
+    }
+
+    pub fn verif_provider_keys(&self) -> &HashMap<Key, Vec<ProviderRecord>> {
+        &self.provider_keys
+    }
+
+    pub fn verif_local_providers(&self) -> Vec<Key> {
+        self.local_providers.keys().cloned().collect()
+    }
+}
+
 #[derive(Debug)]
 pub struct MemoryStoreConfig {
     /// Maximum number of records to store.
